@@ -366,3 +366,201 @@ func (p *Prog) assignsConst(f *Func, obj types.Object, val string) func(ast.Node
 		return as != nil && p.R(f).Val(rhs).IsConst(val)
 	}
 }
+
+// checkScoreFreshness: a score read into a local before a penalty must not be used to judge after it.
+// For every local variable assigned from (*peerScore).Score in fn, no use of the variable is reachable
+// from an AddPenalty call of the same function without passing a new assignment from Score.
+func checkScoreFreshness(c *RuleCtx, rule, fnName string) {
+	p := c.P
+	f := c.MustFn(rule, fnName)
+	if f == nil {
+		return
+	}
+	g := p.Graph(f)
+	info := f.Info()
+	sc := isScoreOf(p, f)
+	// score locals and their (re)definition nodes
+	scoreVars := map[types.Object]bool{}
+	isDef := func(n ast.Node) (types.Object, bool) {
+		as, ok := n.(*ast.AssignStmt)
+		if !ok || len(as.Lhs) != 1 || len(as.Rhs) != 1 {
+			return nil, false
+		}
+		id, ok := unparen(as.Lhs[0]).(*ast.Ident)
+		if !ok {
+			return nil, false
+		}
+		obj := info.ObjectOf(id)
+		if obj == nil {
+			return nil, false
+		}
+		if _, isCall := unparen(as.Rhs[0]).(*ast.CallExpr); isCall && sc(p.R(f).Val(as.Rhs[0])) {
+			return obj, true
+		}
+		return nil, false
+	}
+	inspectNoLit(f.Body, func(n ast.Node) bool {
+		if obj, ok := isDef(n); ok {
+			scoreVars[obj] = true
+		}
+		return true
+	})
+	pens := p.Sites(f, false, "(*peerScore).AddPenalty")
+	if len(scoreVars) == 0 || len(pens) == 0 {
+		c.Check(true, rule, f.Name, "score judged is current", f.Decl, "no score local is live across a penalty", "")
+		return
+	}
+	for obj := range scoreVars {
+		// uses of the variable (reads)
+		type use struct {
+			id *ast.Ident
+			pt Point
+		}
+		var uses []use
+		inspectNoLit(f.Body, func(n ast.Node) bool {
+			if as, ok := n.(*ast.AssignStmt); ok {
+				// the left-hand side of a definition is not a read
+				for _, r := range as.Rhs {
+					ast.Inspect(r, func(m ast.Node) bool {
+						if id, ok := m.(*ast.Ident); ok && info.Uses[id] == obj {
+							if pt, ok := g.Locate(id); ok {
+								uses = append(uses, use{id, pt})
+							}
+						}
+						return true
+					})
+				}
+				for _, l := range as.Lhs {
+					if _, isId := unparen(l).(*ast.Ident); isId {
+						continue
+					}
+					ast.Inspect(l, func(m ast.Node) bool {
+						if id, ok := m.(*ast.Ident); ok && info.Uses[id] == obj {
+							if pt, ok := g.Locate(id); ok {
+								uses = append(uses, use{id, pt})
+							}
+						}
+						return true
+					})
+				}
+				return false
+			}
+			if id, ok := n.(*ast.Ident); ok && info.Uses[id] == obj {
+				if pt, ok := g.Locate(id); ok {
+					uses = append(uses, use{id, pt})
+				}
+			}
+			return true
+		})
+		stop := func(n ast.Node) bool {
+			o, ok := isDef(n)
+			return ok && o == obj
+		}
+		for i, cs := range pens {
+			pt, ok := g.Locate(cs.Call)
+			if !ok {
+				c.Undecided(rule, f.Name, "penalty site", cs.Call, "not located in the CFG")
+				continue
+			}
+			from := Point{pt.B, pt.I + 1}
+			var stale *ast.Ident
+			for _, u := range uses {
+				if g.ReachableFrom(from, u.pt, nil, stop) {
+					stale = u.id
+					break
+				}
+			}
+			suffix := ""
+			if i > 0 {
+				suffix = "#" + itoa(i+1)
+			}
+			why := "every later use of `" + obj.Name() + "` is behind a fresh read of the score"
+			bad := ""
+			if stale != nil {
+				bad = "`" + obj.Name() + "` read before this penalty is still used at " + p.Pos(stale) + " (no new Score() read in between): a peer whose score the penalty made negative is judged with the old value"
+			}
+			c.Check(stale == nil, rule, f.Name, "score judged after a penalty is current ("+obj.Name()+")"+suffix, cs.Call, why, bad)
+		}
+	}
+}
+
+// checkPruneOnlyMembers: a PRUNE is reported to the tracer (and so charged by the scorer's sticky
+// mesh-failure penalty) only for a peer that was a mesh member. A peer selected by the router itself
+// (a range variable, a closure argument that is one) is a member by selection; a peer that comes in
+// from outside — a parameter of the enclosing method — must be behind a successful lookup in the
+// topic's mesh map.
+func checkPruneOnlyMembers(c *RuleCtx, rule string) {
+	p := c.P
+	n := 0
+	var classify func(f *Func, key ast.Expr, site ast.Node, depth int) (bool, string)
+	classify = func(f *Func, key ast.Expr, site ast.Node, depth int) (bool, string) {
+		kv := p.R(f).Val(key)
+		if kv.Kind != "var" || kv.Obj == nil {
+			return true, "selected by the router (" + kv.String() + ")"
+		}
+		// a parameter of this function?
+		idx := -1
+		if f.Type != nil && f.Type.Params != nil {
+			i := 0
+			for _, fl := range f.Type.Params.List {
+				for _, nm := range fl.Names {
+					if f.Info().Defs[nm] == kv.Obj {
+						idx = i
+					}
+					i++
+				}
+			}
+		}
+		if idx < 0 {
+			if f.Parent != nil {
+				// a variable of an enclosing function captured by the closure
+				return classify(f.Parent, key, f.Lit, depth+1)
+			}
+			return true, "a local selected by the router (" + kv.String() + ")"
+		}
+		member := AtomBool("peer in mesh[topic]", func(v *V) bool {
+			return v.Kind == "lookupok" && innerMapOf("mesh")(v.Args[0]) && v.Args[1].Equal(kv)
+		})
+		if ok, _ := p.DomAny(f, site, AtomWant{member, true}); ok {
+			return true, "behind a successful lookup in the topic mesh"
+		}
+		if f.Parent == nil {
+			return false, "the peer is the parameter `" + kv.Obj.Name() + "` of " + f.Name + " and no lookup in the topic's mesh map precedes the report"
+		}
+		if depth > 3 {
+			return false, "closure nesting too deep"
+		}
+		// closure parameter: every call of the closure must pass a member
+		calls := 0
+		for _, cs := range p.FuncCalls(f.Parent, false) {
+			if idx >= len(cs.Call.Args) {
+				continue
+			}
+			if cs.Name != f.Name {
+				// a call through the local the literal is bound to
+				if v := p.R(f.Parent).Val(cs.Call); v == nil || !strings.HasSuffix(v.Name, f.Name) {
+					continue
+				}
+			}
+			calls++
+			if ok, why := classify(f.Parent, cs.Call.Args[idx], cs.Call, depth+1); !ok {
+				return false, why
+			}
+		}
+		if calls == 0 {
+			return false, "no call of the closure found"
+		}
+		return true, "every caller of the closure passes a peer selected by the router or checked to be a member"
+	}
+	for _, cs := range p.AllSites(fnTrPrune) {
+		if len(cs.Call.Args) < 1 {
+			continue
+		}
+		n++
+		ok, why := classify(cs.Fn, cs.Call.Args[0], cs.Call, 0)
+		c.Check(ok, rule, cs.Fn.Root().Name, "PRUNE reported only for a mesh member", cs.Call, why, "a PRUNE is reported to the tracer (and charged by the scorer as a mesh failure) for a peer that need not be in the mesh: "+why)
+	}
+	if n < 3 {
+		c.Undecided(rule, "tracer.Prune sites", "inventory", nil, "fewer sites than known (Leave, heartbeat, handlePrune)")
+	}
+}
